@@ -900,7 +900,23 @@ impl QueryRouter {
         let num_parameters = message_cursor.get_i16();
 
         for i in 0..num_parameters {
-            let mut len = message_cursor.get_i32() as usize;
+            let len = message_cursor.get_i32();
+
+            // NULL has no value bytes, and a value that is not the sharding key
+            // must be stepped over to reach the next parameter.
+            if len < 0 {
+                continue;
+            }
+            let mut len = len as usize;
+            if len > message_cursor.remaining() {
+                debug!("Bind parameter {} is longer than the message", i);
+                return false;
+            }
+            if !self.placeholders.contains(&(i + 1)) {
+                message_cursor.advance(len);
+                continue;
+            }
+
             let format = match &parameter_format {
                 ParameterFormat::Text => ParameterFormat::Text,
                 ParameterFormat::Uniform(format) => *format.clone(),
@@ -940,6 +956,7 @@ impl QueryRouter {
                                 "Got wrong length for integer type parameter in bind: {}",
                                 len
                             );
+                            message_cursor.advance(len);
                             continue;
                         }
                     },
